@@ -9,35 +9,51 @@ From FB Require Import Model.Seal Proofs.Seal.
 Import ListNotations.
 Local Open Scope N_scope.
 
-(* The statement as given: with sealing on, no history of requests changes any size.  REFUTED by the
-   faithful model (D10, reproduced on the real code): OPEN or CREATE carrying O_TRUNC truncates, a
-   WRITE whose request flags carry O_APPEND is checked against its offset but appended at EOF. *)
-Definition C18_full : Prop := sealed_sizes_full.
-Theorem C18_refuted : ~ C18_full.
+(* [c_fx C : fixes] records which of the three proposed refusals (fixes/C18-seal-size-trunc-append.patch)
+   the source tree contains; props/c18.py reads it from the source on every run and the tie validates it.
+   The current tree has none ([no_fixes]). *)
+
+(* The statement as given: with sealing on, no history of requests changes any size. *)
+Definition C18_full (fx : fixes) : Prop := sealed_sizes_full fx.
+
+(* On the current tree it is REFUTED by the faithful model (D10, reproduced on the real code): OPEN or
+   CREATE carrying O_TRUNC truncates, a WRITE whose request flags carry O_APPEND is checked against its
+   offset but appended at EOF. *)
+Theorem C18_refuted : ~ C18_full no_fixes.
 Proof. exact sealed_sizes_refuted. Qed.
 
-(* Proved part: the invariant holds for ALL histories that contain no request of the narrow known
-   class [known] (O_TRUNC in open/create flags, O_APPEND in a write's flags), for every host whose
-   fallocate inside the file keeps the size, from any state whose fds agree with their stored flags *)
+(* On a tree that contains the three refusals it holds outright, for ALL histories. *)
+Theorem C18_full_when_fixed : C18_full all_fixes.
+Proof. exact sealed_sizes_full_fixed. Qed.
+
+(* Proved part for any tree: the invariant holds for ALL histories whose requests are [covered]: outside
+   the narrow known class [known] (O_TRUNC in open/create flags, O_APPEND in a write's flags) or of a kind
+   the tree refuses; for every host whose fallocate inside the file keeps the size, from any state whose
+   fds agree with their stored flags *)
 Theorem C18_partial : forall H C, c_seal C = true -> falloc_within H ->
-  forall rs s, slots_ok s -> forallb (fun r => negb (known r)) rs = true ->
+  forall rs s, slots_ok s -> forallb (covered C) rs = true ->
   forall f, sizes (snd (run H C s rs)) f = sizes s f.
 Proof. exact sealed_sizes_partial. Qed.
+Theorem C18_partial_outside_known : forall H C, c_seal C = true -> falloc_within H ->
+  forall rs s, slots_ok s -> forallb (fun r => negb (known r)) rs = true ->
+  forall f, sizes (snd (run H C s rs)) f = sizes s f.
+Proof. exact sealed_sizes_outside_known. Qed.
 
-(* requests that stay within the current size behave exactly as without sealing (result and state) *)
-Theorem C18_within_size_same : forall H no_open s r,
+(* requests that stay within the current size (and do not ask for truncation / appending) behave exactly
+   as without sealing (result and state), on any tree *)
+Theorem C18_within_size_same : forall H no_open fx s r,
   size_bounded s -> stays_within s r ->
-  step H (mk_cfg true no_open) s r = step H (mk_cfg false no_open) s r.
+  step H (mk_cfg true no_open fx) s r = step H (mk_cfg false no_open fx) s r.
 Proof. exact within_size_same. Qed.
 
-(* requests that would change a size are refused with EPERM/EINVAL and change no size *)
-Theorem C18_refused : forall H no_open s r,
+(* requests that would change a size are refused with EPERM/EINVAL and change no size, on any tree *)
+Theorem C18_refused : forall H no_open fx s r,
   would_change s r ->
-  (get_data (mk_cfg true no_open) s (match r with Write k _ _ _ _ | Fallocate k _ _ _ _ => k | _ => 0 end)
+  (get_data (mk_cfg true no_open fx) s (match r with Write k _ _ _ _ | Fallocate k _ _ _ _ => k | _ => 0 end)
             (match r with Write _ f _ _ _ | Fallocate _ f _ _ _ => f | _ => 0 end) <> None \/
    match r with Setattr _ _ _ => True | _ => False end) ->
-  (fst (step H (mk_cfg true no_open) s r) = EPERM \/ fst (step H (mk_cfg true no_open) s r) = EINVAL) /\
-  forall f, sizes (snd (step H (mk_cfg true no_open) s r)) f = sizes s f.
+  (fst (step H (mk_cfg true no_open fx) s r) = EPERM \/ fst (step H (mk_cfg true no_open fx) s r) = EINVAL) /\
+  forall f, sizes (snd (step H (mk_cfg true no_open fx) s r)) f = sizes s f.
 Proof. exact refused_no_effect. Qed.
 
 (* the concrete linux/ext4 host model used by the tie satisfies the host hypothesis *)
@@ -46,24 +62,35 @@ Proof. exact tie_host_falloc_within. Qed.
 
 (* the three D10 witnesses in the model: a 10-byte file ends with 0, 0 and 14 bytes *)
 Example C18_witnesses :
-  sizes (snd (run tie_host (mk_cfg true false) w_state [Open 0 0 (N.lor 1 O_TRUNC)])) 0 = 0 /\
-  sizes (snd (run tie_host (mk_cfg true true) w_state [Create 0 0 (N.lor 2 O_TRUNC)])) 0 = 0 /\
-  sizes (snd (run tie_host (mk_cfg true false) w_state [Open 0 0 2; Write 0 0 0 4 (N.lor 2 O_APPEND)])) 0 = 14.
+  sizes (snd (run tie_host (mk_cfg true false no_fixes) w_state [Open 0 0 (N.lor 1 O_TRUNC)])) 0 = 0 /\
+  sizes (snd (run tie_host (mk_cfg true true no_fixes) w_state [Create 0 0 (N.lor 2 O_TRUNC)])) 0 = 0 /\
+  sizes (snd (run tie_host (mk_cfg true false no_fixes) w_state [Open 0 0 2; Write 0 0 0 4 (N.lor 2 O_APPEND)])) 0 = 14.
 Proof. exact (conj witness_open_trunc (conj witness_create_trunc (proj2 witness_write_append))). Qed.
 
 (* non-vacuity of the partial theorem: a history outside the known class on a satisfiable state, with
    an accepted in-size write, a refused write, a refused fallocate and a refused setattr *)
 Example C18_nonvacuous :
   slots_ok w_state /\
-  forallb (fun r => negb (known r))
+  forallb (covered (mk_cfg true false no_fixes))
           [Open 0 0 2; Write 0 0 2 8 2; Write 0 0 8 8 2; Fallocate 0 0 0 0 11; Setattr 0 true 3] = true /\
-  fst (run tie_host (mk_cfg true false) w_state
+  fst (run tie_host (mk_cfg true false no_fixes) w_state
            [Open 0 0 2; Write 0 0 2 8 2; Write 0 0 8 8 2; Fallocate 0 0 0 0 11; Setattr 0 true 3])
   = [0; 0; EPERM; EPERM; EPERM].
 Proof. split; [exact w_state_ok|split; reflexivity]. Qed.
 
+(* on a tree with the refusals the three D10 requests are answered EPERM and nothing changes *)
+Example C18_fixed_tree_witnesses :
+  fst (run tie_host (mk_cfg true false all_fixes) w_state
+           [Open 0 0 (N.lor 1 O_TRUNC); Create 0 0 (N.lor 2 O_TRUNC); Open 0 0 2; Write 0 0 0 4 (N.lor 2 O_APPEND)])
+  = [EPERM; EPERM; 0; EPERM] /\
+  sizes (snd (run tie_host (mk_cfg true false all_fixes) w_state
+           [Open 0 0 (N.lor 1 O_TRUNC); Create 0 0 (N.lor 2 O_TRUNC); Open 0 0 2; Write 0 0 0 4 (N.lor 2 O_APPEND)])) 0 = 10.
+Proof. split; reflexivity. Qed.
+
 Print Assumptions C18_refuted.
+Print Assumptions C18_full_when_fixed.
 Print Assumptions C18_partial.
+Print Assumptions C18_partial_outside_known.
 Print Assumptions C18_within_size_same.
 Print Assumptions C18_refused.
 Print Assumptions C18_host_model_ok.
